@@ -265,6 +265,13 @@ pub fn build(dna: &[u16]) -> UCase {
         o.push_str("            if !exp { o.tally(\"eq_false\", 1); } else { o.tally(\"eq_true\", 1); }\n        }\n");
     }
     o.push_str("    }\n");
+    if has_hash && has_clone && size == cover && size > 0 {
+        // a slice of unions (an array, a Vec) is hashed through Hash::hash_slice: the length, then every element as above
+        o.push_str("    {\n        let last = store.len() - 1;\n        let arr = [*view(&store[0]), *view(&store[last]), *view(&store[1])];\n        let got = rec(&arr[..]);\n");
+        o.push_str("        let mut h = RecHasher::new();\n        ::core::hash::Hasher::write_usize(&mut h, 3);\n");
+        o.push_str("        ::core::hash::Hash::hash(&pats[0][..], &mut h); ::core::hash::Hash::hash(&pats[last][..], &mut h); ::core::hash::Hash::hash(&pats[1][..], &mut h);\n");
+        o.push_str("        o.check(got == h.calls, || format!(\"a slice of three values: hasher received {:?}, the length and the three byte slices would give {:?}\", got, h.calls));\n        o.tally(\"hash_slice\", 1);\n    }\n");
+    }
     if has_clone {
         o.push_str(&format!("    o.check(impls!({ty}: Copy) && impls!({ty}: Clone), || \"Clone/Copy not implemented\".to_string());\n"));
     }
@@ -348,7 +355,7 @@ pub fn run(ctx: &Ctx) -> i32 {
             return rep.finish();
         },
     };
-    let n = ctx.scale(2500, 6000);
+    let n = ctx.scale(4000, 8000);
     let trees = check::draw(ctx.seed, 0xC20, n, 120);
     let cases: Vec<UCase> = trees.iter().map(|t| build(&t.current())).collect();
     // rejection half, in-process
